@@ -38,11 +38,14 @@ def run(ctx, oracles, *, syntax_preserving=False, prefix=''):
     for name, mk, path, attr, val in REGIMES:
         if syntax_preserving and name == 'cost.components':
             continue  # arbitrary component multisets are not all syntactically meaningful (two dates etc. still parse; keep to frame/inv)
+        shape_i = 0
         for n, idx, k in grid(ctx.thorough):
             text = mk(n)
             base = {'path': path, 'attr': attr, 'parent': path, 'field': attr}
+            shape_i += 1       # the batch as a list, a generator, a tuple, an iterator in turn (any iterable is a batch)
             ops = [
-                {'k': 'setitem', 'kind': 'rep-setslice', 'idx': idx, 'val': {'t': 'list', 'items': [val(i) for i in range(k)]}, **base},
+                {'k': 'setitem', 'kind': 'rep-setslice', 'idx': idx,
+                 'val': {'t': 'list', 'items': [val(i) for i in range(k)], 'as': ('list', 'gen', 'tuple', 'iter')[shape_i % 4]}, **base},
             ]
             if k == 0:
                 ops.append({'k': 'delitem', 'kind': 'rep-delslice', 'idx': idx, **base})
